@@ -52,7 +52,7 @@ Definition cstep (c : cfg) (s : pending) (o : cop) : pending * list msg * bool :
     let r := step c s o in
     (fst r, flat_map fwd_of (snd r), negb (existsb bad_of (snd r)))
   | CHead n lks =>
-    let r := step c s (OHead n false (orc_of lks)) in
+    let r := step c s (OHead n evm_poll_safe (orc_of lks)) in
     (fst r, flat_map fwd_of (snd r),
      negb (existsb bad_of (snd r)) && eqzl (sortz (flat_map looked_of (snd r))) (sortz (map fst lks)))
   end.
@@ -75,3 +75,19 @@ Fixpoint cgroups (c : cfg) (s : pending) (gs : list cgroup) : bool :=
   end.
 
 Definition check_history (c : cfg) (gs : list cgroup) : bool := cgroups c init gs.
+
+(* ------------------------------------------------------------------ poller cases: first lastBlock, then per poll the answer and what
+   the real pollBlocks returned / published: (lastBlock', published (number, Safe), error) *)
+Fixpoint eqpub (a b : list (Z * bool)) : bool :=
+  match a, b with
+  | [], [] => true
+  | (x, sf) :: s, (y, sf') :: t => (x =? y) && Bool.eqb sf sf' && eqpub s t
+  | _, _ => false
+  end.
+Fixpoint check_polls (last : Z) (steps : list (option Z * (Z * list (Z * bool) * bool))) : bool :=
+  match steps with
+  | [] => true
+  | (a, (l', pub, err)) :: t =>
+    let r := poll_blocks last a in
+    (fst (fst r) =? l') && eqpub (snd (fst r)) pub && Bool.eqb (snd r) err && check_polls (fst (fst r)) t
+  end.
